@@ -7,8 +7,10 @@ package dsmr
 import (
 	"context"
 	"fmt"
+	"runtime/debug"
 	"sync"
 	"testing"
+	"time"
 
 	"github.com/ava-labs/avalanchego/database"
 	"github.com/ava-labs/avalanchego/database/memdb"
@@ -16,6 +18,8 @@ import (
 	"github.com/ava-labs/avalanchego/network/p2p"
 	"github.com/ava-labs/avalanchego/network/p2p/acp118"
 	"github.com/ava-labs/avalanchego/network/p2p/p2ptest"
+	"github.com/ava-labs/avalanchego/snow/engine/common"
+	"github.com/ava-labs/avalanchego/snow/engine/enginetest"
 	"github.com/ava-labs/avalanchego/trace"
 	"github.com/ava-labs/avalanchego/utils/crypto/bls"
 	"github.com/ava-labs/avalanchego/utils/crypto/bls/signer/localsigner"
@@ -23,6 +27,7 @@ import (
 	"github.com/ava-labs/avalanchego/utils/set"
 	"github.com/ava-labs/avalanchego/utils/wrappers"
 	"github.com/ava-labs/avalanchego/vms/platformvm/warp"
+	"github.com/prometheus/client_golang/prometheus"
 
 	"github.com/ava-labs/hypersdk/codec"
 	"github.com/ava-labs/hypersdk/consts"
@@ -205,6 +210,101 @@ type vfNodeOpts struct {
 	// wrapGetChunk wraps the GetChunk handler of node `peer` as seen by the
 	// client of node `owner` (fault injection); nil = no wrapping.
 	wrapGetChunk func(owner, peer int, h p2p.Handler) p2p.Handler
+	// getChunkGuard, when set, wires the GetChunk clients with
+	// vfNewClientWithPeers instead of p2ptest.NewClientWithPeers, so that a
+	// panic on one of the message delivery goroutines (peer handler or the
+	// requester's response callback) is handed to the monitor instead of
+	// killing the process.
+	getChunkGuard *vfClientGuard
+}
+
+// vfClientGuard receives what goes wrong on the message delivery goroutines of
+// a client built by vfNewClientWithPeers.
+type vfClientGuard struct {
+	onPanic func(where string, v any, stack string)
+	onError func(where string, err error)
+}
+
+func (g *vfClientGuard) run(where string, f func() error) (panicked bool) {
+	defer func() {
+		if v := recover(); v != nil {
+			panicked = true
+			if g.onPanic != nil {
+				g.onPanic(where, v, string(debug.Stack()))
+			}
+		}
+	}()
+	if err := f(); err != nil && g.onError != nil {
+		g.onError(where, err)
+	}
+	return false
+}
+
+// vfNewClientWithPeers wires a p2p client to a set of in-process peers exactly
+// like avalanchego's p2ptest.NewClientWithPeers does (one p2p.Network per peer,
+// every message delivered on its own goroutine), except that the delivery
+// goroutines recover panics of the code they call (the peer's handler, the
+// requester's response callback) and report them through the guard. When a
+// peer's handler panics the requester is told that the request failed, as a
+// real network would after the peer died, so that it is not left waiting.
+func vfNewClientWithPeers(ctx context.Context, clientNodeID ids.NodeID, clientHandler p2p.Handler, peers map[ids.NodeID]p2p.Handler, g *vfClientGuard) (*p2p.Client, error) {
+	peers[clientNodeID] = clientHandler
+	senders := make(map[ids.NodeID]*enginetest.Sender)
+	networks := make(map[ids.NodeID]*p2p.Network)
+	for nodeID := range peers {
+		senders[nodeID] = &enginetest.Sender{}
+		nw, err := p2p.NewNetwork(logging.NoLog{}, senders[nodeID], prometheus.NewRegistry(), "")
+		if err != nil {
+			return nil, err
+		}
+		networks[nodeID] = nw
+	}
+	senders[clientNodeID].SendAppGossipF = func(ctx context.Context, cfg common.SendConfig, b []byte) error {
+		for nodeID := range cfg.NodeIDs {
+			go g.run("gossip handler", func() error { return networks[nodeID].AppGossip(ctx, nodeID, b) })
+		}
+		return nil
+	}
+	senders[clientNodeID].SendAppRequestF = func(ctx context.Context, nodeIDs set.Set[ids.NodeID], requestID uint32, b []byte) error {
+		for nodeID := range nodeIDs {
+			nw, ok := networks[nodeID]
+			if !ok {
+				return fmt.Errorf("%s is not connected", nodeID)
+			}
+			go func() {
+				if g.run("peer request handler", func() error { return nw.AppRequest(ctx, clientNodeID, requestID, time.Time{}, b) }) {
+					g.run("response callback (request failed)", func() error {
+						return networks[clientNodeID].AppRequestFailed(ctx, nodeID, requestID, &common.AppError{Code: -1, Message: "peer handler panicked"})
+					})
+				}
+			}()
+		}
+		return nil
+	}
+	for nodeID := range peers {
+		senders[nodeID].SendAppResponseF = func(ctx context.Context, _ ids.NodeID, requestID uint32, b []byte) error {
+			go g.run("response callback", func() error { return networks[clientNodeID].AppResponse(ctx, nodeID, requestID, b) })
+			return nil
+		}
+		senders[nodeID].SendAppErrorF = func(ctx context.Context, _ ids.NodeID, requestID uint32, code int32, msg string) error {
+			go g.run("response callback (request failed)", func() error {
+				return networks[clientNodeID].AppRequestFailed(ctx, nodeID, requestID, &common.AppError{Code: code, Message: msg})
+			})
+			return nil
+		}
+	}
+	for nodeID := range peers {
+		if err := networks[nodeID].Connected(ctx, clientNodeID, nil); err != nil {
+			return nil, err
+		}
+		if err := networks[nodeID].Connected(ctx, nodeID, nil); err != nil {
+			return nil, err
+		}
+		if err := networks[nodeID].AddHandler(0, peers[nodeID]); err != nil {
+			return nil, err
+		}
+	}
+	return networks[clientNodeID].NewClient(0), nil
 }
 
 type vfNode struct {
@@ -278,6 +378,16 @@ func vfNewNodes(t *testing.T, net *vfNet, opts vfNodeOpts) ([]*vfNode, error) {
 			}
 			window = tvw
 		}
+		var getChunkClient *p2p.Client
+		if opts.getChunkGuard != nil {
+			var err error
+			getChunkClient, err = vfNewClientWithPeers(ctx, net.vals[i].NodeID, wrap(i, i), getChunkPeers, opts.getChunkGuard)
+			if err != nil {
+				return nil, err
+			}
+		} else {
+			getChunkClient = p2ptest.NewClientWithPeers(t, ctx, net.vals[i].NodeID, wrap(i, i), getChunkPeers)
+		}
 		node, err := New[dsmrtest.Tx](
 			logging.NoLog{},
 			net.vals[i].NodeID,
@@ -288,7 +398,7 @@ func vfNewNodes(t *testing.T, net *vfNet, opts vfNodeOpts) ([]*vfNode, error) {
 			ps[i].getChunk,
 			ps[i].sig,
 			ps[i].gossip,
-			p2ptest.NewClientWithPeers(t, ctx, net.vals[i].NodeID, wrap(i, i), getChunkPeers),
+			getChunkClient,
 			p2ptest.NewClientWithPeers(t, ctx, net.vals[i].NodeID, ps[i].sig, sigPeers),
 			p2ptest.NewClientWithPeers(t, ctx, net.vals[i].NodeID, ps[i].gossip, gossipPeers),
 			Block{},
